@@ -108,4 +108,34 @@ Section PubC10.
       unfold enabled, step. rewrite Hp, Hc. discriminate.
   Qed.
 
+  (* Close called from inside OnTimeout: the delivery whose callback runs has left its select (and the read
+     lock) - it is not among the goroutines the closer waits for.  If no OTHER delivery of s is in its select,
+     the close started right after the Timeout step can finish at once. *)
+  Lemma close_from_callback (st st1 st2 : state) p s :
+    reach st -> step st (Timeout p s) = Some st1 -> step st1 (CloseSub s) = Some st2 ->
+    is_insel (pair st2 p s) = false /\
+    (s_inmap (subs st1 s) = true -> (forall q, q <> p -> is_insel (pair st q s) = false) ->
+     enabled st2 (FinishClose s)).
+  Proof.
+    intros R H1 H2. pose proof (reach_inv _ R) as I.
+    assert (R1 : reach st1) by (eapply reach_step; eauto).
+    assert (Hs : s < nsub st) by (unfold step in H1; destruct (pair st p s) eqn:E; try discriminate;
+                                  apply (i_bnd _ I p s); congruence).
+    assert (P1 : forall q, pair st1 q s = if q =? p then PTimedOut else pair st q s).
+    { intros q. inv_step H1; dupd; try congruence; rewrite ?Nat.eqb_refl; auto;
+        destruct (Nat.eqb_spec q p); try congruence; auto. }
+    assert (N1 : nsub st1 = nsub st /\ npub st1 = npub st) by (inv_step H1; dupd; auto).
+    assert (P2 : forall q, pair st2 q s = pair st1 q s) by (intros q; inv_step H2; dupd; auto).
+    split.
+    - rewrite P2, P1, Nat.eqb_refl. reflexivity.
+    - intros Hin Hoth. destruct (first_closer_takes _ _ _ R1 H2 Hin) as (_ & Hph & _ & _).
+      assert (N2 : nsub st2 = nsub st1 /\ npub st2 = npub st1) by (inv_step H2; dupd; auto).
+      unfold enabled, step. destruct N1 as [N1a N1b]. destruct N2 as [N2a N2b].
+      assert (s <? nsub st2 = true) by (apply Nat.ltb_lt; lia). rewrite H, Hph.
+      assert (no_insel st2 s = true).
+      { unfold no_insel. apply forallb_forall. intros q _. rewrite P2, P1.
+        destruct (Nat.eqb_spec q p); auto. rewrite Hoth; auto. }
+      rewrite H0. discriminate.
+  Qed.
+
 End PubC10.
